@@ -1,3 +1,4 @@
 pub mod e1;
 pub mod refs;
 pub mod report;
+pub mod e6;
